@@ -31,6 +31,7 @@ RULE = (
 ASSUMPTIONS = [
     "weights are pairwise distinct (all n! rankings), as the property states",
     "comparisons of squared distances (with each other, with a cut-off, in the Gabriel condition) within 1e-9 relative are three-valued: either outcome is admissible",
+    "exception: for small-integer point sets in free space every squared distance is an exactly representable integer and the Gabriel condition (third point STRICTLY inside the ball) is decided exactly - a point on the sphere does not remove the edge",
     "progress bars are silenced harness-side by replacing the module-level tqdm with the identity",
     "the Gabriel graph is read by calling the module-level helper on the public metric's distance matrix; if the helper is renamed only the labels are judged",
 ]
@@ -161,8 +162,10 @@ def _admissible_cutoff(i, w, D, cut, scale):
     return out
 
 
-def _gabriel_model(D, scale):
-    """(edges surely present, edges undecidable) by the brute-force definition."""
+def _gabriel_model(D, scale, exact=False):
+    """(edges surely present, edges undecidable) by the brute-force definition. exact: the points are small
+    integers in free space, every squared distance is an exactly representable integer, and "a third point
+    strictly inside the ball" is decided exactly (a point ON the sphere does not block the edge)."""
     n = len(D)
     sure = np.zeros((n, n), bool)
     maybe = np.zeros((n, n), bool)
@@ -173,7 +176,7 @@ def _gabriel_model(D, scale):
             for k in range(n):
                 if k in (i, j):
                     continue
-                t = _lt(D[i, k] + D[j, k], D[i, j], scale)
+                t = bool(D[i, k] + D[j, k] < D[i, j]) if exact else _lt(D[i, k] + D[j, k], D[i, j], scale)
                 if t is True:
                     blocked = True
                 elif t is None:
@@ -372,7 +375,10 @@ def check(case):
             if r.violations:
                 break
     else:
-        sure, maybe = _gabriel_model(D, scale)
+        exact = cell is None and case["label"] in ("grid2d", "line1d", "cube3d") and bool(np.all(P == np.round(P)))
+        sure, maybe = _gabriel_model(D, scale, exact)
+        if exact:
+            r.count("gabriel_graphs_decided_exactly")
         # the Gabriel graph the implementation uses
         try:
             import skmatter.clustering._quick_shift as qm
